@@ -5,6 +5,9 @@
 (*   start                                                                 *)
 (*   file  id hidden indot fault in0 in1 pre out ref refnl ifproc base     *)
 (*         reported tol          one per input file, observed after the run*)
+(*   iso   id fault in0 in1 pre out absent allfailed ifproc reported       *)
+(*         (distinct-secret trees: judged against the run on the tree      *)
+(*          without the failing files, clause IsolationVsAbsent)           *)
 (*   end   others0 others1       the rest of the sandbox                   *)
 (* Contents are digests (strings); TLC decides every equality.  `refnl` is *)
 (* what the stream API returns for the text with CR LF / CR rewritten to   *)
@@ -23,6 +26,7 @@ VARIABLES l, skip
 tvars == <<rvars, l, skip>>
 
 Verdict(e) == IF e.ev = "file" THEN FileVerdict(e)
+              ELSE IF e.ev = "iso" THEN IsoVerdict(e)
               ELSE IF e.ev = "end" THEN EndVerdict(e)
               ELSE "UnknownEvent"
 
